@@ -18,7 +18,8 @@ ASSUME = ['fault-free runs: complete writes on blocking descriptors. Two fault c
           'a relaxed oracle (the peer holds a PREFIX of what the call was asked to send, send()/sendline() return what arrived): short '
           'writes on the pty (a signal during a long write), and a socket with its own timeout against a peer that stops reading '
           '(sendall gives up midway; socket.send takes what fits)',
-          'os.linesep is LF on this platform']
+          'os.linesep is LF on this platform',
+          'exceptions from outside (Ctrl-C, a raising signal handler) are injected only where the code under test really waits (select, poll, recv, sleep, a blocking waitpid): between two arbitrary bytecodes no code can promise anything and nothing is judged there']
 
 
 def nontrivial(scn, info):
